@@ -2562,8 +2562,9 @@ int32 matrixValidateCertsExt(psPool_t *pool, psX509Cert_t *subjectCerts,
                     break;
                 case GN_IP:
                     foundSupportedSAN = 1;
-                    if (opts->nameType == NAME_TYPE_ANY ||
-                        opts->nameType == NAME_TYPE_SAN_IP_ADDRESS)
+                    if ((opts->nameType == NAME_TYPE_ANY ||
+                         opts->nameType == NAME_TYPE_SAN_IP_ADDRESS) &&
+                        n->dataLen == 4)
                     {
                         Snprintf(ip, sizeof(ip), "%u.%u.%u.%u",
                             (unsigned char) (n->data[0]),
